@@ -19,7 +19,7 @@ rm $S/$dir/zz_seed_demo_test.go
 echo "demo-with-change exit=$dw (want !=0)  demo-without exit=$db (want 0)  suite-with-change exit=$su (want 0)"
 [ $su -ne 0 ] && grep -v "^ok\|no test files" $S/_suite.log | head -5
 for p in $props; do
-  VERIF_REPO=$S VERIF_OUT=$S/_out /verif/bin/govc check $p > $S/_chk_$p.log 2>&1; rc=$?
+  VERIF_REPO=$S VERIF_OUT=$S/_out ${GOVC_BIN:-/verif/bin/govc} check $p > $S/_chk_$p.log 2>&1; rc=$?
   echo "check $p exit=$rc: $(grep -c '^VIOLATION' $S/_chk_$p.log) violation(s)"
   grep '^VIOLATION' $S/_chk_$p.log | sed "s#$S#/repo#g" | sed 's/replay=[^ ]* //' | cut -c1-230 | head -4
 done
